@@ -38,9 +38,9 @@ ASSUMPTIONS = [
     'run_file(input, output, n) runs exactly n trials (that is C11/C12)',
 ]
 BOUNDS = {
-    'quick': {'n_inputs': [1, 5], 'nodes': [1, 4], 'cores': [1, 6], 'trials_max': 40,
+    'quick': {'n_inputs': [1, 6], 'nodes': [1, 5], 'cores': [1, 7], 'trials_max': 50,
               'procs': [(4, 4, 1, 3), (3, 2, 2, 5), (5, 3, 2, 7)], 'proc_rounds': 3},
-    'thorough': {'n_inputs': [1, 7], 'nodes': [1, 6], 'cores': [1, 8], 'trials_max': 130,
+    'thorough': {'n_inputs': [1, 8], 'nodes': [1, 7], 'cores': [1, 10], 'trials_max': 150,
                  'procs': [(4, 4, 1, 3), (3, 2, 2, 5), (5, 3, 2, 7), (6, 4, 2, 9), (7, 5, 2, 11), (2, 3, 1, 4),
                            (5, 5, 1, 6)], 'proc_rounds': 8},
 }
